@@ -472,7 +472,7 @@ def run_load(case, ctx, res) -> None:  # noqa: ANN001
                 res.counters["rows_decoded"] += 1
                 got_n = st[nm] if 0 <= nm < len(st) else f"<id {nm} out of range>"
                 got_c = st[ct] if 0 <= ct < len(st) else f"<id {ct} out of range>"
-                if got_n != e.name or got_c != e.cat:
+                if not core.same_symbol(got_n, e.name) or got_c != e.cat:
                     nb += 1
                     if nb <= 2:
                         res.bad("rank-decodes-to-own-strings", f"{mode} order {case['order']}: rank {r} event {i} decodes to ({got_n!r}, {got_c!r}), file says "
